@@ -23,8 +23,9 @@ fn char_tags(s: &Sentence) -> Vec<Vec<Option<String>>> {
 fn build(text: &str, labels: &[B], k: usize, tag_idx: &[usize]) -> Sentence<'static, 'static> {
     let mut s = sentence_with(text, labels);
     s.reset_tags(k);
-    for (slot, &ti) in s.tags_mut().iter_mut().zip(tag_idx) {
-        *slot = TAGS[ti].map(|t| Cow::Owned(t.to_string()));
+    // tags are stored borrowed and owned in turn (a model's tags are borrowed, parsed ones owned: the writers must not care)
+    for (k, (slot, &ti)) in s.tags_mut().iter_mut().zip(tag_idx).enumerate() {
+        *slot = TAGS[ti].map(|t| if k % 2 == 0 { Cow::Borrowed(t) } else { Cow::Owned(t.to_string()) });
     }
     s
 }
